@@ -187,6 +187,32 @@ theorem C13_rejected_raw (good junk : Bytes) (e : End)
     cases e <;> simp [Step.clean, End.isErr] at this
     exact ⟨_, rfl⟩
 
+/-- raw, since dbbf16d: a LAST size line that lacks its newline and announces a request (`size ≠ 0`) is refused - nothing
+follows it, so what it announces is not there - after exactly the entries of the well-formed piece in front of it
+(before dbbf16d the line was dropped and the truncated file accepted: `C13_unrepaired_raw_drops_last_size_line`) -/
+theorem C13_rejected_raw_unterminated_size_line (good line : Bytes) (size : Int) (tag : Bytes)
+    (h : WellFormed (rawRun true) good) (hnl : cut line 10 = none) (hne : ¬ (trimSpace line).isEmpty)
+    (hd : decodeRawHeader (trimSpace line) = .ok (size, tag)) (hs : size ≠ 0) :
+    (rawRun true (good ++ line)).entries = (rawRun true good).entries ∧
+    ((rawRun true (good ++ line)).end_ = .err "trunc" ∨ (rawRun true (good ++ line)).end_ = .err "size") := by
+  have hl : line ≠ [] := by
+    intro hl; subst hl; exact hne (by decide)
+  have hr : readLineU line = some (line, []) := by
+    unfold readLineU; rw [hnl]; cases line with
+    | nil => exact absurd rfl hl
+    | cons _ _ => simp
+  have hstep : ∃ e, rawStep true line = .fail e ∧ (e = .err "trunc" ∨ e = .err "size") := by
+    unfold rawStep; rw [hr]; simp only
+    unfold rawLine; simp only [hne, if_false, hd, hs]
+    rcases readBody_fixed size [] with ⟨_, h'⟩ | ⟨_, _, h'⟩ | ⟨h0, h1, _⟩
+    · exact ⟨_, by rw [h']; simp [endOfRes], .inr rfl⟩
+    · exact ⟨_, by rw [h']; simp [endOfRes], .inl rfl⟩
+    · simp at h1; omega
+  obtain ⟨e, he, hcls⟩ := hstep
+  have := (C13_rejected_raw good line e h he).1
+  rw [this]
+  exact ⟨rfl, hcls⟩
+
 /-- a size line with a negative size is refused by the uripost step, whatever follows -/
 theorem C13_rejected_uripost_negative_line (urlOk : Bytes → Bool) (line rest : Bytes) (size : Int) (uri tag : Bytes) (b : UInt8)
     (hne : ¬ (trimSpace line).isEmpty) (hb : indexC (trimSpace line) 0 = .ok b) (hb' : b ≠ 91)
@@ -312,6 +338,8 @@ def negOnly : Bytes := [45, 53, 32, 47, 97, 10]
 def huge : Bytes := [57, 57, 57, 57, 57, 57, 57, 57, 57, 57, 57, 57, 57, 57, 32, 47, 97, 32, 116, 10]
 /-- `16 t1\nGET / HTTP/1.0\n\n\n` -/
 def rawGood : Bytes := [49, 54, 32, 116, 49, 10, 71, 69, 84, 32, 47, 32, 72, 84, 84, 80, 47, 49, 46, 48, 10, 10, 10]
+/-- `16 t1` (a size line cut before its newline) -/
+def rawCutLine : Bytes := [49, 54, 32, 116, 49]
 /-- `-5 t\n` -/
 def rawNeg : Bytes := [45, 53, 32, 116, 10]
 /-- `[A: b]\n/a t` -/
@@ -362,6 +390,14 @@ example : ∃ c, parseShootName r1bad = .err c := ⟨"count", by decide⟩
 example : cut propNoHash 35 = none := by decide
 example : resolveTags true (fun _ => none) (fun _ => none) tagProp = .err "format" := by decide
 example : (getMapValue true emptySource pathNext [] 0).1.isErr = true := by decide
+
+/- a last size line without newline after a well-formed piece: the hypotheses of `C13_rejected_raw_unterminated_size_line` -/
+example : cut rawCutLine 10 = none ∧ ¬ (trimSpace rawCutLine).isEmpty ∧ decodeRawHeader (trimSpace rawCutLine) = .ok (16, [116, 49]) := by decide
+example : rawRun true (rawGood ++ rawCutLine) = ⟨(rawRun true rawGood).entries, .err "trunc", rawCutLine⟩ := by decide
+
+/-- the raw decoder before dbbf16d: the truncated last entry is dropped and the file accepted -/
+theorem C13_unrepaired_raw_drops_last_size_line :
+    rawRunDrop true (rawGood ++ rawCutLine) = ⟨(rawRun true rawGood).entries, .ok, rawCutLine⟩ := by decide
 
 /-- the tree as found: a negative size panics in `make([]byte, size)` -/
 theorem C13_unrepaired_negative_size_panics :
